@@ -155,7 +155,7 @@ func VerifReifyTotal() {
 		verifrt.Reach("link-map")
 	case 2, 3: // dag-pb with a decodable UnixFS message of arbitrary type
 		typ := verifrt.I64()
-		data := pbField(nil, 1, uint64(typ))
+		var data []byte // the fields after DataType (DataType itself is placed below)
 		inline := verifrt.Bytes(verifrt.Choose(3))
 		hasInline := verifrt.Choose(2) == 1
 		if hasInline {
@@ -174,6 +174,18 @@ func VerifReifyTotal() {
 		if hasFanout {
 			fanout = verifrt.U64()
 			data = pbField(data, 6, fanout)
+		}
+		// wire order of the fields is free in protobuf: DataType first (canonical), DataType
+		// last, or an unknown field leading the message
+		switch verifrt.Choose(3) {
+		case 0:
+			data = append(pbField(nil, 1, uint64(typ)), data...)
+		case 1:
+			data = pbField(data, 1, uint64(typ))
+			verifrt.Reach("type-not-first")
+		default:
+			data = append(pbField(pbField(nil, 15, 7), 1, uint64(typ)), data...)
+			verifrt.Reach("type-not-first")
 		}
 		var links []pbLinkSpec
 		withLinks := class == 3 && reifier == "unixfs"
